@@ -1,8 +1,286 @@
 import RisorModel.Util
-/-! Line-protocol front end of the C17 model (stub until the model exists). -/
+import RisorModel.C17.Model
+/-!
+Line-protocol front end of the C17 model.
+
+  `rt <nodes> <table>`  →  `ok <wf: WF p ∧ WF (p.mapStr sanitize)> <named> <utf8> <json> <reload> <nodes'> <table'> <viewEq> <stable> <spec>`
+
+`<nodes>`/`<table>` are space-separated token streams (strings in hex, `-` = empty):
+  nodes := N count node*
+  node  := id name isNamed parent(-1|pos) functionID tableID source  ninstr instr*  nconst const*  nnames name*
+  const := n | b 0/1 | i int | f bits | s hex | F id name code(-1|pos) nparams p* ndefaults basic*
+  table := T id isBlock  nsym sym*  nby (key sym)*  nfree (sym scope depth freeIndex)*  nchildren table*
+  sym   := name index isConst
+`<json>` is the model's MarshalCode output as canonical JSON text: every string (keys too) in
+hex between quotes with `!` for the `\ufffd` escape, floats as `f<bits>`; field names, order
+and omitempty come from `schema`.
+-/
 namespace Risor.C17
+open Risor.Util
+
+abbrev P := StateT (List String) Option
+
+def tok : P String := do
+  match (← get) with
+  | [] => failure
+  | t :: r => set r; pure t
+
+def expect (s : String) : P Unit := do
+  let t ← tok
+  if t = s then pure () else failure
+
+def natP : P Nat := do
+  match (← tok).toNat? with
+  | some n => pure n
+  | none => failure
+
+def intP : P Int := do
+  match (← tok).toInt? with
+  | some n => pure n
+  | none => failure
+
+def bytesP : P Bytes := do
+  match fromHex (← tok) with
+  | some b => pure b
+  | none => failure
+
+def boolP : P Bool := do
+  let t ← tok
+  if t = "1" then pure true else if t = "0" then pure false else failure
+
+def optNatP : P (Option Nat) := do
+  let i ← intP
+  if i < 0 then pure none else pure (some i.toNat)
+
+def many {α : Type} (p : P α) : Nat → P (List α)
+  | 0 => pure []
+  | n + 1 => do
+    let a ← p
+    let r ← many p n
+    pure (a :: r)
+
+def counted {α : Type} (p : P α) : P (List α) := do
+  let n ← natP
+  many p n
+
+def basicP : P Basic := do
+  let t ← tok
+  if t = "n" then pure .nil
+  else if t = "b" then return .bool (← boolP)
+  else if t = "i" then return .int (← intP)
+  else if t = "f" then return .float (← natP)
+  else if t = "s" then return .str (← bytesP)
+  else failure
+
+def constP : P Const := do
+  let t ← tok
+  if t = "n" then pure (.basic .nil)
+  else if t = "b" then return .basic (.bool (← boolP))
+  else if t = "i" then return .basic (.int (← intP))
+  else if t = "f" then return .basic (.float (← natP))
+  else if t = "s" then return .basic (.str (← bytesP))
+  else if t = "F" then do
+    let id ← bytesP
+    let name ← bytesP
+    let code ← optNatP
+    let params ← counted bytesP
+    let defaults ← counted basicP
+    pure (.fn ⟨id, name, params, defaults⟩ code)
+  else failure
+
+def nodeP : P Node := do
+  let id ← bytesP
+  let name ← bytesP
+  let isNamed ← boolP
+  let parent ← optNatP
+  let functionID ← bytesP
+  let tableID ← bytesP
+  let source ← bytesP
+  let instrs ← counted natP
+  let consts ← counted constP
+  let names ← counted bytesP
+  pure { id, name, isNamed, parent, functionID, tableID, instrs, consts, names, source }
+
+def nodesP : P (List Node) := do
+  expect "N"
+  counted nodeP
+
+def symP : P Sym := do
+  let name ← bytesP
+  let index ← natP
+  let isConst ← boolP
+  pure ⟨name, index, isConst⟩
+
+def scopeP : P Scope := do
+  let t ← tok
+  if t = "local" then pure .loc else if t = "global" then pure .glob
+  else if t = "free" then pure .free else failure
+
+def resolP : P Resol := do
+  let sym ← symP
+  let scope ← scopeP
+  let depth ← intP
+  let fi ← intP
+  pure ⟨sym, scope, depth, fi⟩
+
+def tableP : Nat → P Table
+  | 0 => failure
+  | fuel + 1 => do
+    expect "T"
+    let id ← bytesP
+    let blk ← boolP
+    let syms ← counted symP
+    let bn ← counted (do let k ← bytesP; let s ← symP; pure (k, s))
+    let fr ← counted resolP
+    let ch ← counted (tableP fuel)
+    pure (.mk id syms bn fr blk ch)
+
+def splitToks (s : String) : List String := (s.splitOn " ").filter (· ≠ "")
+
+def parseProg (nodes table : String) : Option Prog := do
+  let (ns, r1) ← nodesP.run (splitToks nodes)
+  if !r1.isEmpty then failure
+  let tt := splitToks table
+  let (t, r2) ← (tableP (tt.length + 1)).run tt
+  if !r2.isEmpty then failure
+  pure { nodes := ns, table := t }
+
+/-! ### printing a program in the request format -/
+
+def hx (b : Bytes) : String := toHexField b
+def b01 (b : Bool) : String := if b then "1" else "0"
+def optS : Option Nat → String
+  | none => "-1"
+  | some j => toString j
+def cnt {α : Type} (f : α → String) (l : List α) : String :=
+  " ".intercalate (toString l.length :: l.map f)
+
+def showBasic : Basic → String
+  | .nil => "n"
+  | .bool b => "b " ++ b01 b
+  | .int i => "i " ++ toString i
+  | .float x => "f " ++ toString x
+  | .str s => "s " ++ hx s
+
+def showConst : Const → String
+  | .basic b => showBasic b
+  | .fn f code => "F " ++ hx f.id ++ " " ++ hx f.name ++ " " ++ optS code ++ " " ++ cnt hx f.params ++ " "
+      ++ cnt showBasic f.defaults
+
+def showNode (n : Node) : String :=
+  " ".intercalate [hx n.id, hx n.name, b01 n.isNamed, optS n.parent, hx n.functionID, hx n.tableID,
+    hx n.source, cnt toString n.instrs, cnt showConst n.consts, cnt hx n.names]
+
+def showNodes (ns : List Node) : String := "N " ++ cnt showNode ns
+
+def showSym (s : Sym) : String := hx s.name ++ " " ++ toString s.index ++ " " ++ b01 s.isConst
+def showScope : Scope → String
+  | .loc => "local" | .glob => "global" | .free => "free"
+def showResol (r : Resol) : String :=
+  showSym r.sym ++ " " ++ showScope r.scope ++ " " ++ toString r.depth ++ " " ++ toString r.freeIndex
+
+mutual
+def showTable : Table → String
+  | .mk id syms bn fr blk ch =>
+    "T " ++ hx id ++ " " ++ b01 blk ++ " " ++ cnt showSym syms ++ " "
+      ++ cnt (fun kv => hx kv.1 ++ " " ++ showSym kv.2) bn ++ " " ++ cnt showResol fr ++ " "
+      ++ toString ch.length ++ showTables ch
+def showTables : List Table → String
+  | [] => ""
+  | t :: ts => " " ++ showTable t ++ showTables ts
+end
+
+/-! ### canonical JSON text of a (wire-form) state, driven by `schema` -/
+
+def wireHex (w : Bytes) : String :=
+  String.join (w.map fun c => if c = esc then "!" else toHex [c])
+
+def jstr (w : Bytes) : String := "\"" ++ wireHex w ++ "\""
+def jkey (s : String) : String := "\"" ++ toHex (strBytes s) ++ "\""
+def jarr (xs : List String) : String := "[" ++ ",".intercalate xs ++ "]"
+
+/-- one struct value: (Go field name, rendered value, is it the empty value) -/
+abbrev FieldVal := String × String × Bool
+
+def jobj (struct : String) (vals : List FieldVal) : String :=
+  let fields := (schema.lookup struct).getD []
+  let parts := fields.filterMap fun (goName, tag, omitE) =>
+    match vals.lookup goName with
+    | none => none
+    | some (v, empty) => if omitE && empty then none else some (jkey tag ++ ":" ++ v)
+  "{" ++ ",".intercalate parts ++ "}"
+
+def tagAt (i : Nat) : Bytes := strBytes (marshalTags.getD i "?")
+
+def jBasic : Basic → String
+  | .nil => jobj "constantDef" [("Type", jstr (tagAt 0), false)]
+  | .bool b => jobj "boolConstantDef" [("Type", jstr (tagAt 1), false), ("Value", if b then "true" else "false", false)]
+  | .int i => jobj "intConstantDef" [("Type", jstr (tagAt 2), false), ("Value", toString i, false)]
+  | .float x => jobj "floatConstantDef" [("Type", jstr (tagAt 4), false), ("Value", "f" ++ toString x, false)]
+  | .str s => jobj "stringConstantDef" [("Type", jstr (tagAt 6), false), ("Value", jstr s, false)]
+
+def jFuncDef (f : FuncDef) : String :=
+  jobj "functionDef" [("ID", jstr f.id, false), ("Name", jstr f.name, false),
+    ("Parameters", jarr (f.params.map jstr), false), ("Defaults", jarr (f.defaults.map jBasic), false)]
+
+def jConst : ConstDef → String
+  | .basic b => jBasic b
+  | .fn f => jobj "functionConstantDef" [("Type", jstr (tagAt 7), false), ("Value", jFuncDef f, false)]
+
+def jSym (s : Sym) : String :=
+  jobj "symbolDef" [("Name", jstr s.name, false), ("Index", toString s.index, false),
+    ("IsConstant", "true", !s.isConst), ("Value", "null", true)]
+
+def jResol (r : Resol) : String :=
+  jobj "resolutionDef" [("Symbol", jSym r.sym, false), ("Scope", jstr (strBytes (showScope r.scope)), false),
+    ("Depth", toString r.depth, false), ("FreeIndex", toString r.freeIndex, false)]
+
+mutual
+def jTable : Table → String
+  | .mk id syms bn fr blk ch =>
+    jobj "symbolTableDef" [("ID", jstr id, id.isEmpty), ("Symbols", jarr (syms.map jSym), false),
+      ("SymbolsByName", "{" ++ ",".intercalate (bn.map fun kv => jstr kv.1 ++ ":" ++ jSym kv.2) ++ "}", false),
+      ("Free", jarr (fr.map jResol), fr.isEmpty), ("IsBlock", "true", !blk),
+      ("Children", jarr (jTables ch), ch.isEmpty)]
+def jTables : List Table → List String
+  | [] => []
+  | t :: ts => jTable t :: jTables ts
+end
+
+def jCode (d : CodeDef) : String :=
+  jobj "codeDef" [("ID", jstr d.id, d.id.isEmpty), ("Name", jstr d.name, false),
+    ("ParentID", jstr d.parentID, d.parentID.isEmpty), ("SymbolTableID", jstr d.tableID, false),
+    ("FunctionID", jstr d.functionID, d.functionID.isEmpty),
+    ("Instructions", jarr (d.instrs.map toString), d.instrs.isEmpty),
+    ("Constants", jarr (d.consts.map jConst), d.consts.isEmpty),
+    ("Names", jarr (d.names.map jstr), d.names.isEmpty), ("Source", jstr d.source, d.source.isEmpty)]
+
+def jState (s : State) : String :=
+  jobj "state" [("Code", jarr (s.code.map jCode), false), ("SymbolTable", jTable s.table, false)]
+
+def errName : Err → String
+  | .noCode => "no-code"
+  | .tableNotFound _ => "table-not-found"
+  | .parentNotFound _ => "parent-not-found"
+  | .functionNotFound _ => "function-not-found"
 
 def handle : List String → String
-  | _ => "error\tnot-implemented"
+  | ["rt", nodes, table] =>
+    match parseProg nodes table with
+    | none => "error\tbad-request"
+    | some p =>
+      let w := marshal p
+      let head := "ok\t" ++ b01 (decide (WF p) && decide (WF (p.mapStr sanitize))) ++ "\t" ++ b01 (NamedConsistent p) ++ "\t"
+        ++ b01 (ValidUtf8Consts p) ++ "\t" ++ jState w
+      match unmarshal w with
+      | .error e => head ++ "\terr:" ++ errName e ++ "\t-\t-\t0\t0\t0"
+      | .ok q =>
+        head ++ "\tok\t" ++ showNodes q.nodes ++ "\t" ++ showTable q.table ++ "\t"
+          ++ b01 (execView q == execView p) ++ "\t" ++ b01 (State.beq (marshal q) w) ++ "\t" ++ b01 (specOK p)
+  | ["sanitize", s] =>
+    match fromHex s with
+    | some b => toHexField (sanitize b) ++ "\t" ++ b01 (validStr b)
+    | none => "error\tbad-hex"
+  | _ => "error\tunknown-request"
 
 end Risor.C17
